@@ -42,7 +42,8 @@ theorem refs_new (addr ty : Nat) (seedOf : SlabID → Nat) (c : Ctx) :
     an OVERWRITTEN reference (`old = some ⟨_, .ref id⟩`) was one of the old references, is NOT a
     reference of the new map and NOT a slab of the new tree: it is handed to the caller;
     a CREATED reference is `⟨m.addr, c.ctr + 1⟩`, is held by the new map, was not referenced
-    before, and is a slab neither of the old nor of the new tree. -/
+    before, and is a slab neither of the old nor of the new tree; NO reference is lost: every old
+    reference is still held by the map or is the one handed back. -/
 theorem refs_set (T : Nat) (hT : legalThreshold T = true) (D : DigestFn (r + 1)) (cfg : MCfg) (m : OMap r)
     (hcfg : CfgOk cfg T m) (h : MapInv T D m) (hids : MIdsOk m) (k : MKey) (hk : KeyOk T (r + 1) D k)
     (v : Elem) (hv : ValueOkM v) (c : Ctx) (hc : CtxOk m c) (hrefs : MRefsOk m c.ctr)
@@ -53,9 +54,10 @@ theorem refs_set (T : Nat) (hT : legalThreshold T = true) (D : DigestFn (r + 1))
       id ∈ m.refIds ∧ id ∉ m'.refIds ∧ id ∉ AList.keys (MTree.slabs m'.d m'.root)) ∧
     (∀ id, (storedValue cfg k v c).pay = .ref id →
       id = ⟨m.addr, c.ctr + 1⟩ ∧ id ∈ m'.refIds ∧ id ∉ m.refIds ∧
-      id ∉ AList.keys (MTree.slabs m.d m.root) ∧ id ∉ AList.keys (MTree.slabs m'.d m'.root)) := by
-  obtain ⟨g1, g2, g3, g4, g5⟩ := omap_set_refs hT hcfg h hk hv c hc hids hrefs hr
-  refine ⟨g1, g2, g3, g4, ?_⟩
+      id ∉ AList.keys (MTree.slabs m.d m.root) ∧ id ∉ AList.keys (MTree.slabs m'.d m'.root)) ∧
+    (∀ id ∈ m.refIds, id ∈ m'.refIds ∨ ∃ v0, old = some v0 ∧ v0.pay = .ref id) := by
+  obtain ⟨g1, g2, g3, g4, g5, g6, _⟩ := omap_set_refs hT hcfg h hk hv c hc hids hrefs hr
+  refine ⟨g1, g2, g3, g4, ?_, g6⟩
   intro id hid
   obtain ⟨q1, q2, q3, q4, q5, _⟩ := g5 id hid
   exact ⟨q1, q2, q3, q4, q5⟩
@@ -76,7 +78,8 @@ theorem refs_set_refused (T : Nat) (hT : legalThreshold T = true) (D : DigestFn 
     rw [heq] at hr; cases hr
 
 /-- `Remove` preserves `MRefsOk`; nothing is created; a removed reference was one of the old
-    references, is NOT a reference of the new map and NOT a slab of the new tree. -/
+    references, is NOT a reference of the new map and NOT a slab of the new tree; every other old
+    reference is still held by the map. -/
 theorem refs_remove (T : Nat) (hT : legalThreshold T = true) (D : DigestFn (r + 1)) (cfg : MCfg) (m : OMap r)
     (hcfg : CfgOk cfg T m) (h : MapInv T D m) (hids : MIdsOk m) (k : MKey) (hk : KeyOk T (r + 1) D k) (c : Ctx)
     (hc : CtxOk m c) (hrefs : MRefsOk m c.ctr)
@@ -84,7 +87,8 @@ theorem refs_remove (T : Nat) (hT : legalThreshold T = true) (D : DigestFn (r + 
     MRefsOk m' c'.ctr ∧ c.ctr ≤ c'.ctr ∧ c'.created = c.created ∧
     (∀ id ∈ m'.refIds, id ∈ m.refIds) ∧
     (∀ id, v0.pay = .ref id →
-      id ∈ m.refIds ∧ id ∉ m'.refIds ∧ id ∉ AList.keys (MTree.slabs m'.d m'.root)) :=
+      id ∈ m.refIds ∧ id ∉ m'.refIds ∧ id ∉ AList.keys (MTree.slabs m'.d m'.root)) ∧
+    (∀ id ∈ m.refIds, id ∈ m'.refIds ∨ v0.pay = .ref id) :=
   omap_remove_refs hT hcfg h hk c hc hids hrefs hr
 
 /-- `PopIterate`: the emptied map holds no reference (`MRefsOk` w.r.t. the unchanged counter);
